@@ -8,6 +8,7 @@ require (
 	github.com/ipfs/go-graphsync v0.0.0
 	github.com/ipfs/go-log/v2 v2.9.2
 	github.com/ipfs/go-peertaskqueue v0.8.3
+	github.com/ipld/go-codec-dagpb v1.7.0
 	github.com/ipld/go-ipld-prime v0.24.0
 	github.com/libp2p/go-libp2p v0.48.0
 	github.com/libp2p/go-msgio v0.3.0
@@ -23,7 +24,6 @@ require (
 	github.com/hannahhoward/go-pubsub v0.0.0-20200423002714-8d62886cc36e // indirect
 	github.com/ipfs/boxo v0.41.0 // indirect
 	github.com/ipfs/go-ipfs-pq v0.0.4 // indirect
-	github.com/ipld/go-codec-dagpb v1.7.0 // indirect
 	github.com/klauspost/cpuid/v2 v2.3.0 // indirect
 	github.com/libp2p/go-buffer-pool v0.1.0 // indirect
 	github.com/mattn/go-isatty v0.0.22 // indirect
